@@ -36,7 +36,8 @@ def binop(a0: bool, a1: bool, a2: bool, a3: bool, a4: bool, b0: bool, b1: bool, 
     pre: True
     post: _
     """
-    tick()
+    if tick():
+        return True
     ia, ib = _val(a0, a1, a2, a3, a4), _val(b0, b1, b2, b3, b4)
     if ia is None or ib is None:
         return True
@@ -74,7 +75,8 @@ def tifa_glue(a0: bool, a1: bool, a2: bool, b0: bool, b1: bool, b2: bool) -> boo
     pre: True
     post: _
     """
-    tick()
+    if tick():
+        return True
     k = int(PART) if PART else 0
     ops = BINOPS + CMPS
     sym, node, fn = ops[k]
@@ -119,7 +121,8 @@ def value_scalar(v: Union[int, float, bool, str, None]) -> bool:
     pre: not isinstance(v, str) or len(v) <= 2
     post: _
     """
-    tick()
+    if tick():
+        return True
     return _vt(v)
 
 
@@ -128,7 +131,8 @@ def value_list(v: List[Union[int, str]]) -> bool:
     pre: len(v) <= 2 and all(not isinstance(x, str) or len(x) <= 1 for x in v)
     post: _
     """
-    tick()
+    if tick():
+        return True
     return _vt(v)
 
 
@@ -137,7 +141,8 @@ def value_tuple(v: Tuple[int, Tuple[str, int]], w: Tuple[int, str]) -> bool:
     pre: len(v[1][0]) <= 1 and len(w[1]) <= 1
     post: _
     """
-    tick()
+    if tick():
+        return True
     return _vt(v) and _vt(w) and _vt(())
 
 
@@ -146,7 +151,8 @@ def value_dict(v: Dict[str, int], w: Dict[int, List[int]]) -> bool:
     pre: len(v) <= 2 and len(w) <= 1 and all(len(k) <= 1 for k in v) and all(len(x) <= 1 for x in w.values())
     post: _
     """
-    tick()
+    if tick():
+        return True
     return _vt(v) and _vt(w)
 
 
@@ -157,7 +163,8 @@ def value_set(has0: bool, has1: bool, has_a: bool, has_f: bool) -> bool:
     pre: True
     post: _
     """
-    tick()
+    if tick():
+        return True
     v = set()
     if has0:
         v.add(0)
@@ -175,7 +182,8 @@ def value_nested(v: List[List[int]]) -> bool:
     pre: len(v) <= 2 and all(len(x) <= 2 for x in v)
     post: _
     """
-    tick()
+    if tick():
+        return True
     return _vt(v)
 
 
@@ -186,7 +194,8 @@ def binop_reach(a0: bool, a1: bool, a2: bool, a3: bool, a4: bool) -> bool:
     pre: True
     post: _
     """
-    tick()
+    if tick():
+        return True
     ia = _val(a0, a1, a2, a3, a4)
     if ia is None:
         return True
@@ -202,7 +211,8 @@ def numeric_twins(v: int, float_first: bool) -> bool:
     pre: -4 <= v <= 4
     post: _
     """
-    tick()
+    if tick():
+        return True
     f = float(v)
     if float_first:
         tf, ti = get_pedal_type_from_value(f), get_pedal_type_from_value(v)
